@@ -46,6 +46,17 @@ def correspondence(ctx):
         for _ in range(12 if ctx.thorough else 2):
             fam = c05.gen_family(rng)
             tris += [(t, d) for t, d in fam[:4] if len(t.cells) <= 6 and c05.distinct_keys(t.cells) < 100]
+        # NON-coherent triangles (theorem C19.decode_prefix_safe_firstRepr): inside a slice every cell carries its own
+        # Metadata object, ==-equal in another representation (1 / 1.0 / True, 0.0 / -0.0, dict order); the intact file
+        # reads back as `firstRepr cells`, and every torn file must give an error or leading cells of THAT
+        for _ in range(24 if ctx.thorough else 4):
+            for _try in range(10):
+                cells, desc = c05.gen_repr_triangle(rng)
+                rng.shuffle(cells)
+                st, tri = xcall(Triangle, cells[:6])
+                if st == "ok" and len(tri) >= 2:
+                    tris.append((tri, {**desc, "kind": "non-coherent(md-repr)"}))
+                    break
         reqs, infos = [], []
         path = scratch.path(".trib")
         for tri, desc in tris:
@@ -84,7 +95,8 @@ def correspondence(ctx):
         for (cells, B, outs, per, first_n), out in zip(infos, answers):
             # is this file an INSTANCE of C19.decode_prefix_safe / decode_prefix_safe_py?  (wf cells, coherent cells,
             # and the bytes whose prefixes were read are encode cells = encodePy cells)
-            inst = out.get("wf") and out.get("coherent") and out.get("fileIsEncode") and out.get("fileIsEncodePy")
+            inst = out.get("wf") and out.get("fileIsEncodePy")        # decode_prefix_safe_firstRepr needs no `coherent`
+            ctx.count(f"files/coherent={out.get('coherent')}")
             ctx.count("theorem-instance/yes" if inst else "theorem-instance/no (wf=%s coherent=%s file=encode:%s file=encodePy:%s)"
                       % (out.get("wf"), out.get("coherent"), out.get("fileIsEncode"), out.get("fileIsEncodePy")))
             if out.get("wf") and not out.get("fileIsEncodePy"):
@@ -92,7 +104,8 @@ def correspondence(ctx):
                              {"cells": cells, "file": B.hex()})
             if inst and out["modelOk"] + out["modelErr"] != len(B):
                 raise common.Infra("prefixes: not every offset was answered")
-            for j, ok in enumerate(out["spec"]):
+            # judged against `firstRepr cells` (= cells when coherent): what the intact file decodes to
+            for j, ok in enumerate(out.get("specFirstRepr", out["spec"])):
                 if not ok:
                     ctx.fail("a strict prefix of a valid file was read as something other than the leading cells",
                              {"cells": cells, "file": B.hex(), "n": first_n[j]}, {"read": outs[j]})
